@@ -229,8 +229,38 @@ FAMILIES["life"] = dict(
         MaxSteps=45),
     depth=46)
 
+EVENT_SHAPES = ["chg-partial", "chg-partial-obj", "chg-badval-first", "chg-ambiguous", "chg-unknown-action", "chg-emptyrid", "chg-badrid",
+                "chg-wildrid", "chg-notobject", "chg-badjson", "chg-null", "chg-novalues", "chg-string", "add-neg", "add-oob", "add-noidx-badval",
+                "add-badvalue", "add-delete-action", "add-stridx", "add-float", "add-huge", "add-badjson", "add-emptyrid", "remove-neg",
+                "remove-oob", "remove-str", "remove-badjson", "evt-noname", "query-nosubject", "query-badjson", "query-numsubject"]
+REPLY_SHAPES = ["both", "neither", "noresult", "badjson", "empty", "null-result", "model-badvalue", "model-objvalue", "coll-delete", "model-array",
+                "coll-object", "model-emptyrid", "model-wildrid", "error-nocode", "error-string", "get-string", "result-array", "resource-badrid",
+                "resource-empty", "resource-wild", "resource-num", "events-notarray", "events-badevent", "events-badchange", "events-and-model",
+                "meta-string", "meta-status-str", "meta-header-str"]
+
+FAMILIES["malformed"] = dict(
+    cfg=dict(family="malformed", resources={
+        "a": M(a1=P('"v"'), x=P("1"), r1=R("b")), "b": C(P("1"), R("c"), P("2")), "c": M(a1=P('"w"'), z=P("1")),
+        "q?n=1": C(P("1")), "q": C(P("0"))}, qnorm={"q?a=1": "n=1", "q?n=1": "n=1"}),
+    consts=dict(
+        Conns=TSet(["c1", "c2"]), Vers=TSet(["latest", "1.2.0"]),
+        Rids=TSet(["a", "b", "c", "q?a=1"]), CallRids=TSet(["a"]), ResRids=TSet(["c"]),
+        Names=TSet(["a", "b", "c", "q"]), Keys=TSet(["a1", "x"]),
+        Vals=TSet([P("1"), P("2"), P('"s"'), R("c"), X]),
+        AccessOuts=TSet(["ok"]), GetOuts=TSet(["ok"]), CallOuts=TSet(["ok", "res"]), QueryOuts=TSet(["full", "events"]),
+        Tokens=TSet(['"t1"']), Patterns=TSet([[], [">"]]),
+        Shapes=TSet(EVENT_SHAPES), BadOuts=TSet(["bad:" + x for x in REPLY_SHAPES]),
+        Features=TSet(["unsub", "call", "events", "custom", "reset", "mutate", "query", "inject", "quiesce"]),
+        Weights=["int", "int", "int", "int", "reply", "reply", "reply", "cli", "cli", "svc", "svc", "svc", "trig", "misc"],
+        MaxSteps=50),
+    depth=51)
+
+for _f in FAMILIES.values():
+    _f["consts"].setdefault("Shapes", TSet([]))
+    _f["consts"].setdefault("BadOuts", TSet([]))
+
 CONST_ORDER = ["Conns", "Vers", "Rids", "CallRids", "ResRids", "Names", "Keys", "Vals", "AccessOuts", "GetOuts",
-               "CallOuts", "QueryOuts", "Tokens", "Patterns", "Features", "Weights", "MaxSteps"]
+               "CallOuts", "QueryOuts", "Tokens", "Patterns", "Shapes", "BadOuts", "Features", "Weights", "MaxSteps"]
 
 
 def write_env_model(fam, workdir):
